@@ -56,6 +56,8 @@ Lemma wfk_itemsL D sibs ss :
 Proof. reflexivity. Qed.
 Lemma wfk_addS D sibs s : wf_kw D sibs (fix_kw (KAddPropsS s)) = wf4 D (fix_dialect s).
 Proof. reflexivity. Qed.
+Lemma wfk_pat1 D sibs p s : wf_kw D sibs (fix_kw (KPatProps [(p, s)])) = wf4 D (fix_dialect s) && true.
+Proof. reflexivity. Qed.
 Lemma wfk_allof D sibs ss :
   wf_kw D sibs (fix_kw (KAllOf ss)) =
   negb (Nat.eqb (length (map fix_dialect ss)) 0) && forallb (wf4 D) (map fix_dialect ss).
@@ -114,7 +116,7 @@ Proof. rewrite map_app, forallb_app. reflexivity. Qed.
 Lemma number_wf_aux D sibs k s c :
   match multiplesOf c with Some m => 0 <? m | None => true end = true ->
   bound_json (minimum c) = true -> bound_json (maximum c) = true ->
-  (exclusiveMaximum c = true -> has_maximum sibs = true) ->
+  (forall m, maximum c = Some m -> has_maximum sibs = true) ->
   forallb (wf_kw D sibs) (map fix_kw (num_kws k s c)) = true.
 Proof.
   intros Hm Hmin Hmax Hsib. unfold num_kws. rewrite !wf_app.
@@ -128,9 +130,12 @@ Proof.
   assert (E3 : forallb (wf_kw D sibs) (map fix_kw (optl (get_max k s c) KMaximum)) = true).
   { destruct (get_max k s c) as [m|] eqn:E; cbn [map optl fix_kw forallb wf_kw]; [|reflexivity].
     rewrite (get_max_json _ _ _ _ Hmax E). reflexivity. }
-  assert (E4 : forallb (wf_kw D sibs) (map fix_kw (if exclusiveMaximum c then [KExclMax true] else [])) = true).
-  { destruct (exclusiveMaximum c); cbn [map fix_kw forallb wf_kw]; [|reflexivity].
-    rewrite Hsib by reflexivity. reflexivity. }
+  assert (E4 : forallb (wf_kw D sibs)
+                 (map fix_kw (if exclusiveMaximum c && match maximum c with Some _ => true | None => false end
+                              then [KExclMax true] else [])) = true).
+  { destruct (exclusiveMaximum c); cbn [andb map fix_kw forallb wf_kw]; [|reflexivity].
+    destruct (maximum c) as [m|] eqn:Em; cbn [map fix_kw forallb wf_kw]; [|reflexivity].
+    rewrite (Hsib m eq_refl). reflexivity. }
   rewrite E1, E2, E3, E4. reflexivity.
 Qed.
 
@@ -138,11 +143,10 @@ Lemma number_wf D k s c :
   fclean ei (FNumber k s c) = true -> wf4 D (fix_dialect (fschema ei (FNumber k s c))) = true.
 Proof.
   cbn [fclean fschema]. rewrite fix_dialect_Sch, wf4_Sch. intro H.
-  apply andb_true_iff in H as [H Hx]. apply andb_true_iff in H as [H Hmax].
+  apply andb_true_iff in H as [H Hmax].
   apply andb_true_iff in H as [Hm Hmin].
   apply number_wf_aux; auto.
-  intro Ex. rewrite Ex in Hx. simpl in Hx. unfold num_kws.
-  destruct (get_max k s c) as [mx|]; [|discriminate].
+  intros m Em. unfold num_kws, get_max. rewrite Em.
   unfold has_maximum. rewrite !map_app, !existsb_app. simpl.
   rewrite !orb_true_r. reflexivity.
 Qed.
@@ -235,9 +239,8 @@ Section FieldWf.
     - (* FMapKV *)
       cbn [fclean] in Hc. apply andb_true_iff in Hc as [Hs Hk].
       destruct f1; try discriminate.
-      apply andb_true_iff in Hk as [Hk Hv]. apply negb_true_iff in Hk.
-      open_sch. rewrite Hk. rewrite !wf_app, size_kws_wf by exact Hs.
-      cbn [map forallb]. rewrite wfk_addS, IHf2; auto.
+      open_sch. rewrite !wf_app, size_kws_wf by exact Hs.
+      destruct (key_constrained c); cbn [map forallb]; rewrite ?wfk_pat1, ?wfk_addS, IHf2; auto.
     - (* FAllOf *)
       cbn [fclean] in Hc. apply andb_true_iff in Hc as [Hn Hi].
       open_sch. cbn [map forallb]. rewrite wfk_allof, length_map2, Hn, list_wf; auto.
@@ -269,14 +272,12 @@ End FieldWf.
    those are covered by the differential; see Props/C08.v for what is excluded and why) *)
 Fixpoint cfrag (f : field) : bool :=
   match f with
-  | FNumber k s c =>
-      negb (eps_bound k s c) &&
-      (negb (exclusiveMaximum c) || match maximum c with Some _ => true | None => false end)
+  | FNumber k s c => negb (eps_bound k s c)
   | FString _ | FBoolean => true
   | FEnumCls c _ => negb (eo_by_value (ei c))       (* by-value enum fields: decided by the differential *)
   | FSeqAny SeqList _ false => true
   | FSeqEach SeqList g _ false => cfrag g
-  | FMapKV (FString c) vf _ => negb (key_constrained c) && cfrag vf
+  | FMapKV (FString _) vf _ => cfrag vf
   | FAnyOf fs =>
       match fs with
       | [g; FNone] => simple g && cfrag g
@@ -331,16 +332,20 @@ Proof. induction 1; simpl; congruence. Qed.
 
 (* numbers *)
 
+(* exclusiveMaximum as exported: next to the field's own maximum only *)
+Definition xmax (c : numc) : bool :=
+  exclusiveMaximum c && match maximum c with Some _ => true | None => false end.
+
 Lemma num_kws_no_ref k s c : no_ref (map fix_kw (num_kws k s c)) = true.
 Proof.
-  unfold num_kws. destruct (multiplesOf c), (get_min k s c), (get_max k s c), (exclusiveMaximum c); reflexivity.
+  unfold num_kws. fold (xmax c). destruct (multiplesOf c), (get_min k s c), (get_max k s c), (xmax c); reflexivity.
 Qed.
 
 Lemma excl_max_num_kws k s c :
-  excl_max (map fix_kw (num_kws k s c)) = exclusiveMaximum c.
+  excl_max (map fix_kw (num_kws k s c)) = xmax c.
 Proof.
-  unfold num_kws, excl_max.
-  destruct (multiplesOf c), (get_min k s c), (get_max k s c), (exclusiveMaximum c); reflexivity.
+  unfold num_kws, excl_max. fold (xmax c).
+  destruct (multiplesOf c), (get_min k s c), (get_max k s c), (xmax c); reflexivity.
 Qed.
 
 Lemma ltb_false_leb a b : num_ltb a b = false -> num_leb b a = true.
@@ -363,13 +368,13 @@ Definition int_if_integer (k : numkind) (n : num) : Prop :=
   match k with KInteger => exists z, n = NInt z | _ => True end.
 
 Lemma number_valid_aux re rec sibs k s c n :
-  excl_max sibs = exclusiveMaximum c ->
+  excl_max sibs = xmax c ->
   cfrag (FNumber k s c) = true ->
   int_if_integer k n ->
   num_constraints_ok c n = true -> sign_ok s n = true ->
   forallb (valid_kw re rec sibs (PNum n)) (map fix_kw (num_kws k s c)) = true.
 Proof.
-  intros Hex Hc Hint Hok Hs. cbn [cfrag] in Hc. apply andb_true_iff in Hc as [Heps Hxm].
+  intros Hex Hc Hint Hok Hs. cbn [cfrag] in Hc. rename Hc into Heps.
   apply negb_true_iff in Heps.
   unfold num_constraints_ok in Hok. apply andb_true_iff in Hok as [Hok Hmax].
   apply andb_true_iff in Hok as [Hmul Hmin].
@@ -392,9 +397,10 @@ Proof.
         rewrite Hs. reflexivity. }
   assert (E3 : forallb (valid_kw re rec sibs (PNum n)) (map fix_kw (optl (get_max k s c) KMaximum)) = true).
   { unfold get_max. destruct (maximum c) as [mx|] eqn:Emx.
-    - cbn [optl map fix_kw forallb valid_kw]. rewrite Hex. rewrite Hmax. reflexivity.
-    - assert (Enx : exclusiveMaximum c = false).
-      { destruct (exclusiveMaximum c); [discriminate Hxm | reflexivity]. }
+    - cbn [optl map fix_kw forallb valid_kw]. rewrite Hex. unfold xmax. rewrite Emx, andb_true_r.
+      rewrite andb_true_r. exact Hmax.
+    - (* the sign-implied maximum is never exclusive: the field ignores exclusiveMaximum without a maximum of its own *)
+      assert (Enx : xmax c = false) by (unfold xmax; rewrite Emx; apply andb_false_r).
       destruct s; try reflexivity.
       + (* Negative *) destruct k.
         * unfold eps_bound in Heps. rewrite Emx in Heps. discriminate.
@@ -404,8 +410,9 @@ Proof.
       + (* NonPositive *) cbn [optl map fix_kw forallb valid_kw]. rewrite Hex, Enx.
         unfold sign_ok, zero in Hs. rewrite Hs. reflexivity. }
   assert (E4 : forallb (valid_kw re rec sibs (PNum n))
-                 (map fix_kw (if exclusiveMaximum c then [KExclMax true] else [])) = true).
-  { destruct (exclusiveMaximum c); reflexivity. }
+                 (map fix_kw (if exclusiveMaximum c && match maximum c with Some _ => true | None => false end
+                              then [KExclMax true] else [])) = true).
+  { destruct (exclusiveMaximum c && match maximum c with Some _ => true | None => false end); reflexivity. }
   rewrite E0, E1, E2, E3, E4. reflexivity.
 Qed.
 
@@ -647,7 +654,7 @@ Section Complete.
       cbn [app map fix_kw forallb valid_kw type_ok]. rewrite Hall. reflexivity.
     - (* FMapKV *)
       cbn [cfrag] in Hc. destruct f1; try discriminate Hc.
-      apply andb_true_iff in Hc as [Hk Hcv]. apply negb_true_iff in Hk.
+      rename Hc into Hcv.
       rewrite docb_mapkv in Hd. destruct v; try discriminate Hd.
       destruct (size_ok sz (lenZ kv)); [|discriminate Hd].
       match type of Hd with match all_some ?L with _ => _ end = _ => destruct (all_some L) as [r|] eqn:Ea end;
@@ -676,13 +683,22 @@ Section Complete.
         destruct (ser ei re_match e ss (FString c) (fst p)) as [[]|]; try discriminate Hpq.
         destruct (ser ei re_match e ss f2 (snd p)) as [y|] eqn:Ey; [|discriminate Hpq].
         inversion Hpq; subst. cbn [snd]. apply (IHf2 Hcv x (snd p) y n Hx Ey). lia. }
-      cbn [fschema]. rewrite Hk. rewrite fix_dialect_Sch, valid4_S.
-      2:{ rewrite !map_app, !no_ref_app, size_kws_no_ref. reflexivity. }
-      rewrite !map_app, !forallb_app. rewrite size_kws_valid_dict.
-      cbn [app map fix_kw forallb valid_kw type_ok]. rewrite andb_true_r.
-      clear -Hall. induction out as [|p out IH]; [reflexivity|].
-      cbn [forallb] in *. apply andb_true_iff in Hall as [Hp Hall].
-      rewrite Hp, orb_true_r. apply IH. exact Hall.
+      cbn [fschema]. destruct (key_constrained c) eqn:Hk.
+      + (* "patternProperties": {<key regex>: <value schema>}: every value validates, whichever keys the regex finds *)
+        rewrite fix_dialect_Sch, valid4_S.
+        2:{ rewrite !map_app, !no_ref_app, size_kws_no_ref. reflexivity. }
+        rewrite !map_app, !forallb_app. rewrite size_kws_valid_dict.
+        cbn [app map fix_kw forallb valid_kw type_ok fst snd]. rewrite !andb_true_r.
+        clear -Hall. induction out as [|p out IH]; [reflexivity|].
+        cbn [forallb] in *. apply andb_true_iff in Hall as [Hp Hall].
+        rewrite Hp, orb_true_r. cbn [andb]. apply IH. exact Hall.
+      + rewrite fix_dialect_Sch, valid4_S.
+        2:{ rewrite !map_app, !no_ref_app, size_kws_no_ref. reflexivity. }
+        rewrite !map_app, !forallb_app. rewrite size_kws_valid_dict.
+        cbn [app map fix_kw forallb valid_kw type_ok]. rewrite andb_true_r.
+        clear -Hall. induction out as [|p out IH]; [reflexivity|].
+        cbn [forallb] in *. apply andb_true_iff in Hall as [Hp Hall].
+        rewrite Hp, orb_true_r. apply IH. exact Hall.
     - (* FAnyOf *)
       assert (Hsel : exists g w, In g fs /\ docb re_match e g nf = Some w /\ ser ei re_match e ss g nf = Some j).
       { cbn [ser] in Hs. destruct nf; try discriminate Hs;
